@@ -29,7 +29,7 @@ ASSUMPTIONS = [
     'them); duplicates are detected by decoding twice (assign / accumulate)',
 ]
 ANCHORS = ['Table.to_hdf5', 'general_formatter', 'vlen_list_of_str_formatter', '_convert']
-REQUIRED = ['ragged_metadata_cases', 'format_fs_writes', 'spec_decodes', 'empty_axis_tables', 'all_zero_tables',
+REQUIRED = ['group_metadata_decoded', 'reserved_category_user_formatter', 'ragged_metadata_cases', 'format_fs_writes', 'spec_decodes', 'empty_axis_tables', 'all_zero_tables',
             'cli_convert_files', 'layout_csc_seen', 'layout_unsorted_seen',
             'inplace_zeroed_tables']
 
@@ -81,7 +81,8 @@ def run_case(ctx, index):
             _hdf5.write(ctx, t, cfg, path)
         dec = _hdf5.check_conformance(
             ctx, path, src, desc,
-            custom=None if desc.get('via') else cfg.get('custom_category'))
+            custom=None if desc.get('via') else cfg.get('custom_category'),
+            table=None if desc.get('via') else t)
         if not src.D.any():
             ctx.count('all_zero_tables')
     finally:
